@@ -100,6 +100,11 @@ func (x *Exec) doCall(res ssa.Value, call *ssa.CallCommon, p token.Pos) {
 					}
 					x.V.noteAssumed(key + " calls its callback exactly once and returns its result")
 					x.callFunction(args[idx].Fn, args[idx].Binds, cbArgs, nil, setRes, p)
+					if c.Options["counts"] == "write" {
+						// the whole transaction is one top-level (atomic) write
+						w := x.getSV("KV.writes", "Int")
+						x.setSV("KV.writes", "Int", "(+ "+w+" 1)")
+					}
 					return
 				}
 				x.markA(key + ": callback argument is not a closure literal")
